@@ -163,7 +163,7 @@ def copy(p1: linux.Path[H1], p2: linux.Path[H2]) -> None:
             port=p2.host.port,
             ssh_config=getattr(p2.host, "ssh_config", []),
             authenticator=p2.host.authenticator,
-            use_multiplexing=p2.host.use_multiplexing,
+            use_multiplexing=getattr(p2.host, "use_multiplexing", False),
         )
     elif isinstance(p2.host, connector.SubprocessConnector) and isinstance(
         p1.host, _REMOTE_CONNECTORS
@@ -179,7 +179,7 @@ def copy(p1: linux.Path[H1], p2: linux.Path[H2]) -> None:
             port=p1.host.port,
             ssh_config=getattr(p1.host, "ssh_config", []),
             authenticator=p1.host.authenticator,
-            use_multiplexing=p1.host.use_multiplexing,
+            use_multiplexing=getattr(p1.host, "use_multiplexing", False),
         )
     else:
         raise NotImplementedError(f"Can't copy from {p1.host} to {p2.host}!")
